@@ -246,6 +246,70 @@ def eval_model(ck, cases, shard=40):
     return out, okall
 
 
+def setup():
+    """pre-build the server binary used by the black-box part"""
+    ck = vlib.Check(PID, "quick")
+    try:
+        ok = ck.go_build_repo("./app/ts-server", "ts-server") is not None and ck.go_build("./cmd/c11bb", "c11bb") is not None
+    finally:
+        import shutil
+        shutil.rmtree(ck.work, ignore_errors=True)
+    return 0 if ok else 1
+
+
+def blackbox(ck):
+    """identical workload and queries against ts-server with ptnum-pernode 1 and N: the answers must be identical"""
+    srv = ck.go_build_repo("./app/ts-server", "ts-server")
+    bb = ck.go_build("./cmd/c11bb", "c11bb")
+    if not srv or not bb:
+        return
+    conf = os.path.join(ck.repo, "config", "openGemini.singlenode.conf")
+    runs = [(4, 20)] if ck.tier == "quick" else [(8, 250), (3, 150)]
+    total = diff = refdiff = 0
+    with vlib.Lock(os.path.join(ck.verif, "build", "c11-ports.lock")):   # ports 21100-21129 are used by one run at a time
+        for k, (ptnum, nq) in enumerate(runs):
+            wd = os.path.join(ck.work, "bb%d" % k)
+            os.makedirs(wd, exist_ok=True)
+            rc, out = ck.run([bb, srv, conf, "21100", wd, str(ptnum), str(nq)], timeout=900, env={"VERIF_SEED": str(ck.seed + k)})
+            outs = []
+            for l in out.splitlines():
+                if l.startswith('{"kind"'):
+                    try:
+                        outs.append(json.loads(l))
+                    except ValueError:
+                        pass
+            done = [o for o in outs if o["kind"] == "info" and (o.get("msg") or "").startswith("done:")]
+            errs = [o for o in outs if o["kind"] == "error"]
+            if rc != 0 or errs or not done:
+                ck.broken.append("black box c11bb failed (ptnum %d): rc=%d %s" % (ptnum, rc, (errs[0]["msg"] if errs else out[-400:])))
+                continue
+            for o in outs:
+                if o["kind"] == "info" and "acknowledged" in (o.get("msg") or ""):
+                    ck.notes.append("black box: " + o["msg"])
+                if o["kind"] != "query":
+                    continue
+                total += 1
+                if o.get("erra") or o.get("errb"):
+                    if bool(o.get("erra")) != bool(o.get("errb")):
+                        diff += 1
+                        ck.violation({"kind": "black-box", "what": "one server answers, the other fails", "ptnum": ptnum, "query": o})
+                    continue
+                if o["a"] != o["b"]:
+                    diff += 1
+                    if diff <= 3:
+                        ck.violation({"kind": "black-box", "what": "ts-server with ptnum-pernode 1 and %d give different answers to %s: %d vs %d rows; "
+                                      "rows returned by one only: %s" % (ptnum, o["q"], len(o["a"]), len(o["b"]), (o.get("lines") or [])[:4]),
+                                      "ptnum": ptnum, "query": o, "seed": ck.seed + k})
+                elif o["a"] != o["exp"]:
+                    refdiff += 1
+                    if refdiff <= 2:
+                        ck.notes.append("black box: both servers agree but differ from the brute-force evaluation (not a partition effect; "
+                                        "C08/C10 territory): %s -> %d rows, brute force %d" % (o["q"], len(o["a"]), len(o["exp"])))
+    ck.cov["blackbox_queries"] = total
+    ck.cov["blackbox_answers_differing"] = diff
+    ck.cov["blackbox_reference_disagreements"] = refdiff
+
+
 CODE_TXT = {1: "row evaluation (eval_cond)", 3: "HashID (XXH64) of the hashed shard-key bytes",
             4: "span of the created shard group (span_of)", 5: "groups selected by the time range (query_groups)"}
 
@@ -256,6 +320,8 @@ def main(ck):
         "written and when the query runs; partitions going offline between the two are outside the model",
         "one shard-key definition per measurement (no ALTER SHARDKEY history), one engine type per policy",
         "row tags are sorted by key and carry no empty values (what the line-protocol parser delivers)",
+        "black box: single-node ts-server built from the working tree, ptnum-pernode 1 vs N, HTTP /write and /query; the "
+        "single-partition server is the oracle",
         "rows are evaluated with the repository's influxql.EvalBool per leaf (absent tag = empty string); AND/OR/parentheses "
         "are evaluated by the harness and by the model",
     ]
@@ -392,6 +458,8 @@ def main(ck):
                       "the schema check) routed by the real per-batch loop + condition tree on one measurement; non-trivial = the "
                       "read path pruned at least one alive shard AND at least one routed row of the queried measurement satisfies "
                       "the query; distinct = different (cfg, condition, queried measurement, rows)")
+    if not getattr(ck, "replay", None):
+        blackbox(ck)
     ck.cov["points_routed_and_satisfying"] = sat_routed
     ck.cov["input_histogram"] = hist
     ck.cov["samples"] = [{"cfg": c["cfg"], "cond": c["condtext"], "label": c["label"], "targets": c["targets"],
